@@ -13,20 +13,36 @@ import shutil
 from harness import tlc
 
 
-def validate(spec_dir, module, traces, constants, *, timeout=1800, explain=3):
-  """traces: list of event lists.  Returns (accepted_ids, rejected: {id: dict(line, event)}, tlc result)."""
+def validate(spec_dir, module, traces, constants, *, timeout=1800, explain=3, invariants=()):
+  """traces: list of event lists.  Returns (accepted_ids, rejected: {id: dict(line, event)}, tlc result).
+
+  `invariants` of the base spec are evaluated at every step of every trace; a trace on which one fails
+  is reported as rejected with the invariant's name."""
   scratch = tlc.scratch_dir('verif_tr_')
   try:
     path = os.path.join(scratch, 'traces.json')
-    with open(path, 'w') as f:
-      json.dump(traces, f)
-    cfg = tlc.cfg_text(spec='TSpec', constants=constants, invariants=['Accepted'], deadlock=False)
-    res = tlc.run(spec_dir, module, cfg, workers=4, timeout=timeout, env={'TRACE_FILE': path})
-    if not res.ok:
+    inv_failed = {}
+    live = list(range(1, len(traces) + 1))
+    while True:
+      with open(path, 'w') as f:
+        json.dump([traces[i - 1] for i in live], f)
+      cfg = tlc.cfg_text(spec='TSpec', constants=constants, invariants=['Accepted'] + list(invariants), deadlock=False)
+      res = tlc.run(spec_dir, module, cfg, workers=4, timeout=timeout, env={'TRACE_FILE': path})
+      if not res.ok and res.error_kind == 'invariant' and res.error_name in invariants and res.trace and len(inv_failed) < 5:
+        last = res.trace[-1]
+        k = int(last.get('tid', 1))
+        inv_failed[live[k - 1]] = dict(line=int(last.get('l', 0)), event=dict(ev='invariant', op=res.error_name, k=res.error_name),
+                                       prefix=traces[live[k - 1] - 1][max(0, int(last.get('l', 1)) - 6):int(last.get('l', 1)) - 1])
+        live.pop(k - 1)
+        if live:
+          continue
+      break
+    if not res.ok and not inv_failed:
       raise tlc.TlcError(f'trace validation run failed: {res.error_kind} {res.error_name}\n{res.raw_tail}')
-    accepted = {p[1] for p in res.prints if isinstance(p, list) and p and p[0] == 'A'}
-    rejected = {}
-    todo = [i for i in range(1, len(traces) + 1) if i not in accepted]
+    accepted = {live[p[1] - 1] for p in res.prints if isinstance(p, list) and p and p[0] == 'A'} if res.ok else set()
+    rejected = dict(inv_failed)
+    traces_live = set(live)
+    todo = [i for i in range(1, len(traces) + 1) if i not in accepted and i in traces_live]
     for i in todo[:explain]:
       with open(path, 'w') as f:
         json.dump([traces[i - 1]], f)
